@@ -37,7 +37,10 @@ def gen_case(rng):
         if k == "get_points" and n > 0 and f > 0 and P > 0:
             ixs = [rng.randrange(n) for _ in range(rng.randint(1, 4))]; ops.append({"k": k, "ixs": ixs}); n = len(ixs)
         elif k == "select_frames" and f > 0:
-            ixs = [rng.randrange(f) for _ in range(rng.randint(1, 4))]; ops.append({"k": k, "ixs": ixs}); f = len(ixs)
+            ixs = [rng.randrange(f) for _ in range(rng.randint(1, 4))]
+            if rng.random() < 0.4:            # a contiguous block in shuffled order (end points span exactly len − 1)
+                a = rng.randrange(f); ixs = list(range(a, min(f, a + rng.randint(1, 4)))); rng.shuffle(ixs)
+            ops.append({"k": k, "ixs": ixs}); f = len(ixs)
         elif k == "slice_step":
             by = rng.choice([1, 2, 3]); ops.append({"k": k, "by": by}); f = (f + by - 1) // by
         elif k == "matmul" and (P >= 2 or f <= 1) and P > 0 and n > 0 and f > 0:
